@@ -7,6 +7,7 @@ import MemVerif.Model.Debug
 import MemVerif.Model.ExcSafe
 import MemVerif.Model.Joint
 import MemVerif.Model.Compose
+import MemVerif.Model.Temp
 /-!
 Line-protocol driver: reads one operation per line on stdin, runs the executable model, prints the
 model's result in the harness' canonical format. `tools/` diff the two streams.
@@ -149,6 +150,8 @@ structure DState where
   stack : StackSt := {}
   pool : PoolSt := {}
   expr : Option AExpr := none
+  tsys : TSys := { threads := [] }
+  fixes : Fixes := {}
 
 /-- one trace line in, the model's line out -/
 def step (ds : DState) (line : String) : DState × String :=
@@ -160,13 +163,26 @@ def step (ds : DState) (line : String) : DState × String :=
       match arith fn args with
       | some r => (ds, s!"arith {" ".intercalate (fn :: args)} => {r}")
       | none => (ds, s!"bad-op {line}")
+  | "tmt" :: "scripts" :: rest =>
+      let parts := (" ".intercalate rest).splitOn ";"
+      let scripts := parts.map fun p => (toks p).filterMap fun a =>
+        if a = "get" then some Act.get else if a = "ictor" then some Act.initCtor else if a = "idtor" then some Act.initDtor else none
+      ({ ds with tsys := TSys.init scripts }, line.trimAscii.toString)
+  | ["tmt", "init"] => (ds, mkLine "tmt init" "" "-" "" ds.tsys.str)
+  | ["tmt", "step", t] =>
+      let s' := ds.tsys.step ds.fixes (nat! t)
+      let pt := ((s'.threads[nat! t]?).map fun th => th.pc.point).getD "?"
+      ({ ds with tsys := s' }, mkLine s!"tmt step {t}" "" pt "" s'.str)
   | "cmpexpr" :: rest =>
       match parseExpr 64 rest with
       | some (e, []) => ({ ds with expr := some e }, line.trimAscii.toString)
       | _ => (ds, s!"bad-op {line}")
   | "header" :: rest =>
       let subj := (hdr rest "subject").getD ""
-      ({ ds with stack := { cfg := parseCfg rest, subject := subj }, pool := { cfg := parseCfg rest } },
+      let fx : Fixes := match hdr rest "tmpfix" with
+        | some f => { resetTls := f.toList.getD 0 '1' == '1', armOnAdopt := f.toList.getD 1 '1' == '1', destroyAlways := f.toList.getD 2 '1' == '1' }
+        | none => {}
+      ({ ds with stack := { cfg := parseCfg rest, subject := subj }, pool := { cfg := parseCfg rest }, fixes := fx },
        line.trimAscii.toString)
   | subj :: rest =>
       let env := parseEnv (secs.getD 1 "")
